@@ -652,8 +652,9 @@ func (ge *GuardEngine) ctxEdges(fi *fnInfo, b *ssa.BasicBlock, env *Env) []ctxEd
 		if fi.isLoopTest(d) {
 			continue
 		}
-		// the other side rejects: we are past a guard
-		if !fi.canAccept[d.Succs[1-edge]] {
+		// the other side rejects: we are past a guard (for a bool function also when taking the other edge
+		// makes it return false: "return a && b" evaluates b past the guard a)
+		if !fi.canAccept[d.Succs[1-edge]] || fi.rejEdge[[2]*ssa.BasicBlock{d, d.Succs[1-edge]}] {
 			continue
 		}
 		saved := ge.pv.loadCtx
@@ -918,6 +919,7 @@ type GuardReq struct {
 	MinHits int      // number of distinct guards (by position) that must satisfy the row (default 1)
 	LoopExitOK bool  // the enclosing loop may legitimately stop early before reaching the guard (break)
 	All        bool  // search the guards of every function and closure reachable from the entry, not only error-propagating calls
+	LFn        func(string) bool // when set, decides the left operand instead of the L pattern (argument-order-insensitive rows)
 }
 
 type guardCache struct {
@@ -1011,11 +1013,17 @@ func (ge *GuardEngine) CheckReq(c *Ctx, rule string, req GuardReq, guards []Guar
 		}
 	}
 	guards = append(append([]Guard{}, guards...), extra...)
+	matchL := lre.MatchString
+	if req.LFn != nil {
+		matchL = req.LFn
+	}
 	for _, g := range guards {
-		if lre.MatchString(g.L) && rre.MatchString(g.R) {
+		if matchL(g.L) && rre.MatchString(g.R) {
 			cands = append(cands, cand{g, g.Op})
-		} else if req.R != "" && lre.MatchString(g.R) && rre.MatchString(g.L) {
+		} else if req.R != "" && matchL(g.R) && rre.MatchString(g.L) {
 			cands = append(cands, cand{g, flipOp[g.Op]})
+		} else if req.LFn != nil {
+			continue
 		} else if len(ge.pv.expansions) > 0 {
 			// the operands may sit behind a small extracted helper: retry with its body in place of the call
 			xl, xr := ge.pv.ExpandAll(g.L, req.L, req.R), ge.pv.ExpandAll(g.R, req.L, req.R)
@@ -1119,6 +1127,8 @@ func fieldStores(fn *ssa.Function, field string) []*ssa.Store {
 // operands are given: listed patterns; a successful type assertion whose value the operands use;
 // a failed type assertion on a value for which a successful assertion is legitimate (other cases
 // of the same type switch).
+var decoderOKRe = regexp.MustCompile(`^call \(types\.Decoder\)\.Err\(.*\) == nil$`)
+
 var nonEmptyRe = regexp.MustCompile(`^len\((.+)\) (?:!=|>) const:0$`)
 
 func ctxAllowed(descs []string, allowed []*regexp.Regexp, operands []string, perElem bool) []bool {
@@ -1142,6 +1152,10 @@ func ctxAllowed(descs []string, allowed []*regexp.Regexp, operands []string, per
 			if re.MatchString(d) {
 				ok[i] = true
 			}
+		}
+		// "the decoder has not failed yet": on the other side the input is already rejected (sticky error)
+		if decoderOKRe.MatchString(d) {
+			ok[i] = true
 		}
 		if x, pos, isAssert := assertX(d); isAssert && pos {
 			av := strings.TrimSuffix(strings.TrimPrefix(d, "ok:"), " is true")
@@ -1306,6 +1320,9 @@ func (ge *GuardEngine) bypassPath(fi *fnInfo, g *ssa.BasicBlock, legit map[[2]in
 				if legit[[2]int{b.Index, i}] {
 					continue
 				}
+				if fi.rejEdge[[2]*ssa.BasicBlock{b, sc}] {
+					continue // this edge makes a bool function return false: not an accepting path
+				}
 				if !fi.canAccept[sc] && !(header != nil && sc == header) {
 					continue
 				}
@@ -1395,4 +1412,49 @@ func (ge *GuardEngine) arrayElemAtom(v ssa.Value, k int, env *Env) string {
 		return "const:0"
 	}
 	return fallback
+}
+
+// callArgSet: atom is a call of a module closure or function whose top-level arguments, in any order,
+// are matched one-to-one by the required matchers; arguments left over must match one of optional.
+func callArgSet(atom string, required []func(string) bool, optional []*regexp.Regexp) bool {
+	if !strings.HasPrefix(atom, "call ") || strings.HasPrefix(atom, "call invoke ") {
+		return false
+	}
+	args := callArgs(atom)
+	if len(args) < len(required) {
+		return false
+	}
+	used := make([]bool, len(args))
+	for _, m := range required {
+		found := false
+		for i, a := range args {
+			if !used[i] && m(a) {
+				used[i], found = true, true
+				break
+			}
+		}
+		if !found {
+			return false
+		}
+	}
+	for i, a := range args {
+		if used[i] {
+			continue
+		}
+		ok := false
+		for _, re := range optional {
+			if re.MatchString(a) {
+				ok = true
+			}
+		}
+		if !ok {
+			return false
+		}
+	}
+	return true
+}
+
+func reMatcher(p string) func(string) bool {
+	re := regexp.MustCompile(pat(p))
+	return re.MatchString
 }
